@@ -672,9 +672,9 @@ deriving Repr, DecidableEq, Inhabited
 /-- Algorithm 1, `proof_same_secret`. -/
 def proofSameSecret (x r1 r2 g1 h1 g2 h2 : Int) (l t : Nat) (b : Int) (s1 s2 : Nat) (n : Int) :
     M ProofSs := do
-  let omega ← randInt 1 (2 ^ (l + t) * b - 1)
-  let mu1 ← randInt 1 (2 ^ (l + t + s1) * n - 1)
-  let mu2 ← randInt 1 (2 ^ (l + t + s2) * n - 1)
+  let omega ← randInt 1 (2 ^ (l + 2 * t) * b - 1)
+  let mu1 ← randInt 1 (2 ^ (l + 2 * t + s1) * n - 1)
+  let mu2 ← randInt 1 (2 ^ (l + 2 * t + s2) * n - 1)
   let a ← pw g1 omega n
   let b1 ← pw h1 mu1 n
   let w1 := tmod (a * b1) n
@@ -714,7 +714,7 @@ def verifyOfSquare (π : ProofOfS) (g h n : Int) : M Bool :=
 def proofLargeLoop (x r g h : Int) (t l : Nat) (b : Int) (s : Nat) (n : Int) (T : Nat) : Nat → M ProofLi
   | 0 => tapeErr "tape exhausted (large interval)"
   | fuel + 1 => do
-    let w ← randInt 0 (2 ^ T * 2 ^ (t + l) * b - 1)
+    let w ← randInt 0 (2 ^ (t + l) * b - 1)
     let nu ← randInt (-(2 ^ T * 2 ^ (t + l + s)) * n + 1) (2 ^ T * 2 ^ (t + l + s) * n - 1)
     let a ← pw g w n
     let b' ← pw h nu n
@@ -723,7 +723,7 @@ def proofLargeLoop (x r g h : Int) (t l : Nat) (b : Int) (s : Nat) (n : Int) (T 
     let c := tmod C (2 ^ t)
     let D1 := w + x * c
     let D2 := nu + r * c
-    if c * b ≤ D1 ∧ D1 ≤ 2 ^ T * (2 ^ (t + l) * b - 1) then pure ⟨C, D1, D2⟩
+    if c * b ≤ D1 ∧ D1 ≤ 2 ^ (t + l) * b - 1 then pure ⟨C, D1, D2⟩
     else proofLargeLoop x r g h t l b s n T fuel
 
 def proofLargeIntervalSpecific (x r g h : Int) (t l : Nat) (b : Int) (s : Nat) (n : Int) (T : Nat) :
@@ -732,14 +732,14 @@ def proofLargeIntervalSpecific (x r g h : Int) (t l : Nat) (b : Int) (s : Nat) (
   proofLargeLoop x r g h t l b s n T (k + 1)
 
 /-- Algorithm 6, `verify_large_interval_specific`. -/
-def verifyLargeIntervalSpecific (π : ProofLi) (E g h n : Int) (t l : Nat) (b : Int) (T : Nat) : M Bool := do
+def verifyLargeIntervalSpecific (π : ProofLi) (E g h n : Int) (t l : Nat) (b : Int) : M Bool := do
   let c := tmod π.C (2 ^ t)
   let invE ← pw E (-c) n
   let a ← pw g π.D1 n
   let b' ← pw h π.D2 n
   let commit := tmod (a * b' * invE) n
   let out := hashInts [commit]
-  pure (decide (c * b ≤ π.D1) && decide (π.D1 ≤ 2 ^ T * (2 ^ (t + l) * b - 1)) && π.C == out)
+  pure (decide (c * b ≤ π.D1) && decide (π.D1 ≤ 2 ^ (t + l) * b - 1) && π.C == out)
 
 /-- `Integer::sqrt` panics on negative input. -/
 def sqrtM (x : Int) : M Int := if x < 0 then panic else pure (Int.ofNat (isqrt x.toNat))
@@ -752,14 +752,15 @@ def splitLoop (target : Int) (lo hi : Int) : Nat → M (Int × Int)
     let r2 := target - r1
     if lo ≤ r2 ∧ r2 ≤ hi then pure (r1, r2) else splitLoop target lo hi fuel
 
-def tolBounds (a b : Int) (t l T : Nat) : M (Int × Int) := do
-  let sq ← sqrtM (b - a)
-  let k := (2 : Int) ^ (l + t + T / 2 + 1) * sq
-  pure (2 ^ T * a - k, 2 ^ T * b + k)
+/-- the decomposition points `2^T·a`, `2^T·b` and the bound `b₂ = 2·⌊√(2^T·(b−a))⌋` of the remainders
+(`Integer::sqrt` panics on a negative argument). -/
+def tolBounds (a b : Int) (T : Nat) : M (Int × Int × Int) := do
+  let sq ← sqrtM (2 ^ T * (b - a))
+  pure (2 ^ T * a, 2 ^ T * b, 2 * sq)
 
 /-- Algorithm 7, `proof_of_tolerance_specific`. -/
 def proofOfToleranceSpecific (x r g h n a b : Int) (t l s s1 s2 T : Nat) : M ProofWt := do
-  let (aa, bb) ← tolBounds a b t l T
+  let (aa, bb, b2) ← tolBounds a b T
   let xa := x - aa
   let xb := bb - x
   let xa1 ← sqrtM xa
@@ -783,15 +784,18 @@ def proofOfToleranceSpecific (x r g h n a b : Int) (t l s s1 s2 T : Nat) : M Pro
   let e1 ← pw g xb2 n
   let e2 ← pw h rb2 n
   let Eb2 := tmod (e1 * e2) n
-  let sqA ← proofOfSquare xa1 ra1 g h Ea1 l t b s s1 s2 n
-  let sqB ← proofOfSquare xb1 rb1 g h Eb1 l t b s s1 s2 n
-  let liA ← proofLargeIntervalSpecific xa2 ra2 g h t l b s n T
-  let liB ← proofLargeIntervalSpecific xb2 rb2 g h t l b s n T
+  -- bound of the roots `xa1`, `xb1` (Rust recomputes the square root)
+  let sq1 ← sqrtM (2 ^ T * (b - a))
+  let b1 := sq1 + 1
+  let sqA ← proofOfSquare xa1 ra1 g h Ea1 l t b1 s s1 s2 n
+  let sqB ← proofOfSquare xb1 rb1 g h Eb1 l t b1 s s1 s2 n
+  let liA ← proofLargeIntervalSpecific xa2 ra2 g h t l b2 s n T
+  let liB ← proofLargeIntervalSpecific xb2 rb2 g h t l b2 s n T
   pure ⟨Ea1, Ea2, Eb1, Eb2, sqA, sqB, liA, liB⟩
 
 /-- Algorithm 8, `verify_of_tolerance_specific`. -/
 def verifyOfToleranceSpecific (π : ProofWt) (g h E n a b : Int) (t l T : Nat) : M Bool := do
-  let (aa, bb) ← tolBounds a b t l T
+  let (aa, bb, b2) ← tolBounds a b T
   let gaa ← pw g aa n
   let Ea ← divm E gaa n
   let gbb ← pw g bb n
@@ -802,8 +806,8 @@ def verifyOfToleranceSpecific (π : ProofWt) (g h E n a b : Int) (t l T : Nat) :
     -- `&&` short-circuits in Rust: later verifications only run when earlier ones returned true
     let s1 ← verifyOfSquare π.squareA g h n
     let bs ← (if s1 then verifyOfSquare π.squareB g h n else pure false)
-    let l1 ← verifyLargeIntervalSpecific π.largeA π.Ea2 g h n t l b T
-    let bl ← (if l1 then verifyLargeIntervalSpecific π.largeB π.Eb2 g h n t l b T else pure false)
+    let l1 ← verifyLargeIntervalSpecific π.largeA π.Ea2 g h n t l b2
+    let bl ← (if l1 then verifyLargeIntervalSpecific π.largeB π.Eb2 g h n t l b2 else pure false)
     pure (bs && bl)
   else pure false
 
